@@ -11,6 +11,7 @@ Descriptors can be declared only once per process, so this module must be import
 """
 from __future__ import annotations
 
+from abc import ABC
 from dataclasses import dataclass, field
 
 from typing_extensions import List, Optional, Set, Type
@@ -249,6 +250,13 @@ class Row(Symbol):
         return f"Row({self.name})"
 
 
+class Badged(Symbol, ABC):
+    """a class that other classes join by registration (ABC.register): isinstance / issubclass hold for them"""
+
+
+Badged.register(Row)
+
+
 @dataclass(eq=False)
 class Lenient(Symbol):
     """a record whose unknown attributes read as None"""
@@ -419,4 +427,4 @@ PERSON_CLASSES = {"Person": Person, "Employee": Employee, "Manager": Manager, "V
 ORG_CLASSES = {"Org": Org, "Dept": Dept}
 ODD_CLASSES = {"Bag": Bag, "Crate": Crate}
 ALL_CLASSES = {**PERSON_CLASSES, **ORG_CLASSES, "SeasonalA": SeasonalA, "SeasonalB": SeasonalB, "Loose": Loose, "Chief": Chief, "ChiefF": ChiefF, "ChiefE": ChiefE, "VOrg": VOrg, "VPerson": VPerson, "Unit": Unit,
-               "Visitor": Visitor, "Delegate": Delegate, "Chair": Chair, "Convener": Convener, "Boss": Boss, "Folder": Folder, "Stamp": Stamp, "Row": Row, "Lenient": Lenient, "Keeper": Keeper}
+               "Visitor": Visitor, "Delegate": Delegate, "Chair": Chair, "Convener": Convener, "Boss": Boss, "Folder": Folder, "Stamp": Stamp, "Row": Row, "Lenient": Lenient, "Keeper": Keeper, "Badged": Badged}
